@@ -99,6 +99,109 @@ def assert_repo_is_used():
         raise SystemExit(f"harness error: user config taken from {cfgfile}")
 
 
+def run_in_environment(modname, funcname, payload, flags=(), env=None, home_files=None, cwd=None, timeout=1800):
+    """Run `modname.funcname(payload)` in a fresh interpreter started with `flags` (e.g. ["-O"]), extra environment variables
+    `env`, and a HOME of its own pre-populated with `home_files` ({relative path: text}). -> (Acc or None, error text)"""
+    import pickle
+    import subprocess
+
+    root = scratch_dir()
+    home = os.path.join(root, "home")
+    os.makedirs(home, exist_ok=True)
+    for rel, text in (home_files or {}).items():
+        fn = os.path.join(home, rel)
+        os.makedirs(os.path.dirname(fn), exist_ok=True)
+        with open(fn, "w") as f:
+            f.write(text)
+    pf, rf = os.path.join(root, "payload.json"), os.path.join(root, "result.pickle")
+    with open(pf, "w") as f:
+        json.dump(payload, f)
+    e = dict(os.environ, HOME=home, PYTHONPATH=VERIF_DIR + os.pathsep + os.path.join(repo_root(), "src"), **(env or {}))
+    e.pop("VERIF_SCRATCH_OWNER", None)
+    p = subprocess.run([sys.executable, *flags, "-m", "mc.envrun", modname, funcname, pf, rf], env=e, cwd=cwd or VERIF_DIR,
+                       capture_output=True, text=True, timeout=timeout)
+    try:
+        if p.returncode != 0 or not os.path.exists(rf):
+            return None, (p.stderr or p.stdout)[-1500:]
+        with open(rf, "rb") as f:
+            return pickle.load(f), None
+    finally:
+        shutil.rmtree(root, ignore_errors=True)
+
+
+# interpreter environments a check may re-run a reduced case list in (the state of the world around the call is part of the input)
+def _user_units_config():
+    """A user configuration: the working tree's defaults plus exact unit entries for variables that an earlier wildcard
+    entry also matches (an exact name must win over a pattern), and stale look-alike files that must be ignored."""
+    text = open(os.path.join(repo_root(), "src", "osyris", "config", "defaults.py")).read()
+    extra = (
+        '    library["velocity_divergence"] = (1.0 / unit_t) * units("1 / s")\n'
+        '    library["position_tag"] = 1.0 * units("dimensionless")\n'
+        '    library["radiative_energy_fraction"] = 1.0 * units("dimensionless")\n'
+        "    return library\n"
+    )
+    if "    return library\n" not in text:
+        raise RuntimeError("harness: defaults.py has no 'return library' to extend")
+    return {".osyris/config_osyris.py": text.replace("    return library\n", extra, 1)}
+
+
+ENVIRONMENTS = {
+    "python-O": {"flags": ["-O"]},
+    "PYTHONOPTIMIZE=2": {"env": {"PYTHONOPTIMIZE": "2"}},
+    "user-units": {"home_files": _user_units_config},
+}
+
+
+def environment_acc(modname, funcname, payload, envname):
+    """Run a worker in the named environment; violations are tagged with it so that a replay happens there too."""
+    spec = ENVIRONMENTS[envname]
+    hf = spec.get("home_files")
+    acc, err = run_in_environment(modname, funcname, dict(payload, environment=envname, shard=0, nshards=1), flags=spec.get("flags", ()), env=spec.get("env"),
+                                  home_files=hf() if callable(hf) else hf)
+    if acc is None:
+        acc = Acc()
+        acc.error(f"{modname}.{funcname} could not run in environment {envname!r}: {err}")
+        return acc
+    for sig, lst in list(acc.violations.items()):
+        new = sig + ":in-environment:" + envname
+        acc.violations[new] = acc.violations.pop(sig)
+        acc.vcount[new] = acc.vcount.pop(sig)
+        for _, rec in acc.violations[new]:
+            rec["sig"] = new
+            rec["case"] = dict(rec["case"], environment=envname) if isinstance(rec["case"], dict) else rec["case"]
+            rec.pop("task", None)
+            rec.pop("task_history", None)
+    return acc
+
+
+class EnvironmentRuns:
+    """Start the environment runs in the background (one interpreter each) while the pool does the main enumeration."""
+
+    def __init__(self, modname, funcname, payload, envnames):
+        from concurrent.futures import ThreadPoolExecutor
+
+        self.ex = ThreadPoolExecutor(max_workers=max(1, len(envnames)))
+        self.futs = [self.ex.submit(environment_acc, modname, funcname, payload, e) for e in envnames]
+
+    def results(self):
+        out = [f.result() for f in self.futs]
+        self.ex.shutdown()
+        return out
+
+
+def replay_in_environment(modname, case):
+    """replay_sigs of a case recorded in a named environment"""
+    envname = case["environment"]
+    spec = ENVIRONMENTS[envname]
+    inner = {k: v for k, v in case.items() if k != "environment"}
+    hf = spec.get("home_files")
+    acc, err = run_in_environment(modname, "environment_replay", {"case": inner, "environment": envname}, flags=spec.get("flags", ()), env=spec.get("env"),
+                                  home_files=hf() if callable(hf) else hf)
+    if acc is None:
+        raise RuntimeError(f"replay in environment {envname!r} failed: {err}")
+    return [s + ":in-environment:" + envname for s in acc]
+
+
 # --------------------------------------------------------------------------- pool
 
 
